@@ -168,8 +168,12 @@ def afterLastSlash : List Char → List Char → List Char
   | acc, [] => acc.reverse
   | acc, c :: cs => if c = '/' then afterLastSlash [] cs else afterLastSlash (c :: acc) cs
 
-/-- `LibraryInfo::name` of the library with identity string `id` (see `GlobalLibs`) -/
-def libDisplayName (id : Str) : Str := String.ofList (afterLastSlash [] id.toList)
+/-- `LibraryInfo::name` of the library with identity string `id` (see `GlobalLibs`): the last path
+component, without the `#<variant>` suffix. The suffix distinguishes libraries that agree in `name` and
+`path` and differ only in `debug_id` / `code_id` / `arch` / `debug_name` (improvement round; the harness
+derives those fields from it, `add_lib` de-duplicates on the whole `LibraryInfo`, profile.rs:381-400). -/
+def libDisplayName (id : Str) : Str :=
+  String.ofList ((afterLastSlash [] id.toList).takeWhile (· ≠ '#'))
 
 structure ResourceTable where
   libs : List Nat := []
@@ -335,6 +339,33 @@ inductive Fmt
   | u | s | n
 deriving Repr, DecidableEq
 
+/-- `MarkerFieldFormat` (markers.rs:428-525), all 14 variants -/
+inductive MFormat
+  | url | filePath | sanitizedString | string
+  | duration | time | seconds | milliseconds | microseconds | nanoseconds | bytes | percentage | integer | decimal
+deriving Repr, DecidableEq
+
+/-- `MarkerFieldFormat::kind()` (markers.rs:527-543) together with the `field.format ==
+MarkerFieldFormat::String` test that `add_marker` (marker_table.rs:79) and the serializer
+(marker_table.rs:205) make on string-kind fields: `String` is the only "unique-string" format -/
+def MFormat.fmt : MFormat → Fmt
+  | .string => .u
+  | .url | .filePath | .sanitizedString => .s
+  | _ => .n
+
+/-- `MarkerTiming` (markers.rs) -/
+inductive MTiming
+  | instant | interval | intervalStart | intervalEnd
+deriving Repr, DecidableEq
+
+/-- the `(s, e, phase)` triple of `add_marker` (marker_table.rs:61-66): is a start / an end time stored,
+and the numeric `Phase` (marker_table.rs:239-244) -/
+def MTiming.cols : MTiming → Bool × Bool × Nat
+  | .instant => (true, false, 0)
+  | .interval => (true, true, 1)
+  | .intervalStart => (true, false, 2)
+  | .intervalEnd => (false, true, 3)
+
 structure Schema where
   typeName : Str
   cat : Nat
@@ -347,8 +378,10 @@ def Schema.numberCount (s : Schema) : Nat := (s.fields.filter (· = .n)).length
 structure MarkerTable where
   cats : List Nat := []
   names : List Nat := []
-  /-- `marker_starts`, `marker_ends`, `marker_phases` carry no index; only their common length -/
-  times : Nat := 0
+  /-- `marker_starts`, `marker_ends`: is a time stored (`Some`)? `marker_phases`: the numeric phase -/
+  starts : List Bool := []
+  ends : List Bool := []
+  phases : List Nat := []
   types : List Nat := []
   stacks : List (Option Nat) := []
   strVals : List Nat := []
@@ -372,11 +405,14 @@ def markerFields : List Fmt → List (Nat × Str) → ThreadStrings → List Nat
 
 /-- `MarkerTable::add_marker` (marker_table.rs:55-102) -/
 def MarkerTable.add (m : MarkerTable) (name : Nat) (ty : Nat) (schema : Schema)
-    (vals : List (Nat × Str)) (st : ThreadStrings) : Option (MarkerTable × ThreadStrings × Nat) :=
+    (vals : List (Nat × Str)) (st : ThreadStrings) (tm : MTiming := .instant) :
+    Option (MarkerTable × ThreadStrings × Nat) :=
   match markerFields schema.fields vals st m.strVals m.numVals with
   | none => none
   | some (st', strs, nums) =>
-    some ({ cats := m.cats ++ [schema.cat], names := m.names ++ [name], times := m.times + 1,
+    some ({ cats := m.cats ++ [schema.cat], names := m.names ++ [name],
+            -- marker_table.rs:61-72: the four arms, then one push per vector
+            starts := m.starts ++ [tm.cols.1], ends := m.ends ++ [tm.cols.2.1], phases := m.phases ++ [tm.cols.2.2],
             types := m.types ++ [ty], stacks := m.stacks ++ [none], strVals := strs, numVals := nums },
           st', m.cats.length)
 
